@@ -398,7 +398,7 @@ func (e *Engine) specialObligations(name, prop string) ([]*Obligation, []string,
 		return e.encapObligations(prop), nil, nil
 	case "readers":
 		var obs []*Obligation
-		for _, ob := range e.readersObligations(prop) {
+		for _, ob := range append(e.readersObligations(prop), e.writersObligations(prop)...) {
 			if obBelongs(ob, prop) {
 				obs = append(obs, ob)
 			}
